@@ -348,7 +348,7 @@ class Decider:
                 if t is not None:
                     succ = [(s, lab) for s, lab in succ if lab == ("T" if t else "F")]
             if not succ:
-                results.append((None, env, benv, outs))
+                results.append((n if n.kind == "raise" else None, env, benv, outs))
             for s, _lab in succ:
                 if s.id in seen and s.kind in ("for", "test", "while"):
                     flow = self.prog.flow(fi)
@@ -392,6 +392,8 @@ class Decider:
         for end, _env, _benv, outs in self.walk(fi, flow.cfg.entry, None, aliases, depth, env0=env0, loops="havoc"):
             if end is not None and end.kind == "stmt" and isinstance(end.ast, ast.Return) and outs:
                 out |= outs[-1]
+            elif end is not None and end is flow.cfg.raise_exit:
+                continue  # the path raises (a failed assert, an explicit raise): it returns nothing
             elif end is None or end.kind == "exit":
                 out.add(None)
             else:
